@@ -392,12 +392,27 @@ def compute_expected(trace, oracle, tier=None):
                           'args': [{'k': 'kv', 'keys': [0], 'vals': [1]}]}
 
     def replace(c, i):
+        import copy as _copy
         prog = trace['callers'][c]
         op2 = trivial(prog[i]['alg'])
         prog[i] = op2
         expected[(c, i)] = oracle.expected(spec, op2, limit=per_op, timeout=tl)
         costs[(c, i)] = 0
         trace['faults'] = [f for f in trace.get('faults', []) if not (f['caller'] == c and f['op'] == i)]
+        # operations that use the result of the replaced one as an operand now use the replacement's result
+        for j in range(i + 1, len(prog)):
+            hit = False
+            for a in prog[j].get('args', []):
+                if a.get('k') == 'prev' and a.get('i') == i:
+                    a['op'] = _copy.deepcopy(op2)
+                    hit = True
+            if hit and (c, j) in expected:
+                out = oracle.expected(spec, prog[j], limit=per_op, timeout=tl)
+                costs[(c, j)] = oracle.last_cost
+                if out[0] in bad:
+                    replace(c, j)
+                else:
+                    expected[(c, j)] = out
 
     for c, prog in enumerate(trace['callers']):
         for i, op in enumerate(prog):
